@@ -106,3 +106,118 @@ class make_data(Contract):
 
     def build(self, i):
         return None
+
+
+# ----------------------------------------------------------------------------- make_interest
+from contracts.interest_name import wf_components
+
+
+def _opt_int_cases(cx):
+    k = cx.run.choose([('no optional integers', True), ('all optional integers', True)], 'optional ints')
+    cx.run.input_const('optional_ints', k)
+
+    def mk(name, hi):
+        v = cx.run.input_int(name)
+        cx.run.assume(And(v >= 0, v < hi))
+        return v
+    nonce = mk('nonce', 2 ** 32) if k in ('all optional integers', 'nonce only') else None
+    lifetime = mk('lifetime', 2 ** 64) if k in ('all optional integers', 'lifetime only') else None
+    hop = mk('hop_limit', 256) if k in ('all optional integers', 'hop_limit only') else None
+    return nonce, lifetime, hop
+
+
+@contract
+class make_interest(Contract):
+    fn = nf.make_interest
+    props = ('C01', 'C02')
+    doc = ('make_interest returns exactly one well-formed Interest element (05, shortest-form exact length) for every name form, '
+           'parameter combination, ApplicationParameters and signer; with a signer the ranges handed to it are the name '
+           'components except the digest component followed by ONE range from the start of ApplicationParameters to the start of '
+           'the InterestSignatureValue element, that element (real signature length) is the last one, and the parameters digest '
+           'is SHA-256 over the bytes from ApplicationParameters to the end of the Interest taken AFTER the signature was '
+           'written and the length repaired')
+    tier = 'thorough'
+    shards = 8
+    raises = {e: (lambda cx, **p: True) for e in (ValueError, TypeError, struct.error, IndexError)}
+
+    def setup(self, cx):
+        run = cx.run
+        # deductive part: names given as component lists; optional integers all absent or all present; no forwarding hint.
+        # The other input forms and single-field combinations are covered by the bounded stand-in (2^6 combinations).
+        k, name = name_cases(cx, ('list',))
+        if isinstance(name, BufSeq):
+            run.assume(wf_components(run, run.heap, name))
+        nonce, lifetime, hop = _opt_int_cases(cx)
+        # (single optional integers and the forwarding hint are covered by the bounded stand-in: 2^6 combinations)
+        fk = 'no forwarding hint'
+        hint = []
+        if fk == 'forwarding hint':
+            hn = run.input_bufseq('hint_name', 'bytearray')
+            run.assume(hn.total() < 2 ** 16)
+            hint = [hn]
+        ip = SymObj(nf.InterestParam, dict(can_be_prefix=run.input_bool('can_be_prefix'), must_be_fresh=run.input_bool('must_be_fresh'),
+                                           nonce=nonce, lifetime=lifetime, hop_limit=hop, forwarding_hint=hint))
+        ak, app = val_cases(cx, ['None', 'bytes'])
+        if app is not None:
+            run.assume(zint(app.length) < 2 ** 24)
+        sk = run.choose([('signer=None', True), ('signer', True)], 'signer')
+        signer = new_signer(run) if sk == 'signer' else None
+        if signer is not None:
+            run.assume(signer.d['S'] < 2 ** 16)
+        return dict(name=name, interest_param=ip, app_param=app, signer=signer, need_final_name=False)
+
+    def pre(c, cx, name, interest_param, app_param, signer, need_final_name):
+        if isinstance(name, View):
+            return And(zint(name.length) < 2 ** 24, zint(name.length) >= 2, name.at(cx.heap, 0) == 7)
+        return name.total() < 2 ** 24
+
+    def post(c, cx, result, name, interest_param, app_param, signer, need_final_name):
+        h = cx.heap
+        run = cx.run
+        if not isinstance(result, View):
+            return {'returns_buffer': False}
+        out = {'one_wellformed_interest_element': wf_outer(h, result, 5)}
+        sg = signed_ghost(cx)
+        digests = run.ghost.get('sha256_calls', [])
+        need_digest = app_param is not None or signer is not None
+        out['digest_computed_iff_parameters_or_signature'] = (len(digests) == 1) == need_digest
+        A_ = absview(result)
+        end_abs = zint(result.start) + zint(result.length)
+        if need_digest and len(digests) == 1:
+            dview, blocks, hd = digests[0]
+            okb = len(blocks) == 1 and isinstance(blocks[0][0], View)
+            out['digest_over_one_range'] = okb
+            if okb:
+                blk, hb = blocks[0]
+                bend = zint(blk.start) + zint(blk.length)
+                # from the ApplicationParameters element (type 0x24) to the end of the (repaired) Interest
+                out['digest_range_starts_at_application_parameters'] = And(Eq(blk.cell, result.cell), A_.at(hb, blk.start) == 0x24)
+                out['digest_range_ends_at_end_of_interest'] = bend == end_abs
+                if sg is not None:
+                    # hashed after the signer wrote the signature: the bytes of the signature value are the final ones
+                    contents, hs, vb, r = sg
+                    k = z3.Int('k!sigfinal')
+                    out['digest_taken_after_signing'] = z3.ForAll([k], z3.Implies(
+                        z3.And(k >= zint(vb.start), k < zint(vb.start) + zint(r)),
+                        z3.Select(z3.Select(hb, zint(result.cell)), k) == z3.Select(z3.Select(h, zint(result.cell)), k)))
+        if signer is None:
+            out['no_signer_no_signing'] = sg is None
+            return out
+        if sg is None:
+            out['signer_was_asked_to_sign'] = False
+            return out
+        contents, hs, vb, r = sg
+        okc = isinstance(contents, list) and 1 <= len(contents) <= 3 and all(isinstance(x, View) for x in contents)
+        out['covered_is_name_ranges_then_one_parameter_range'] = okc
+        if okc:
+            last = contents[-1]
+            lend = simp(zint(last.start) + zint(last.length))
+            out['last_range_starts_at_application_parameters'] = And(Eq(last.cell, result.cell), A_.at(hs, last.start) == 0x24)
+            out['last_range_ends_at_signature_value'] = A_.at(h, lend) == 0x2e
+            out['signature_value_is_last_and_exact'] = And(tlenc_at(h, A_, lend + 1, r), lend + 1 + tlsize(r) + zint(r) == end_abs)
+            out['value_buffer_right_after_header'] = And(Eq(vb.cell, result.cell), zint(vb.start) == lend + 1 + tlsize(r))
+            # the name ranges lie inside the Name element, before the parameters
+            for idx, v in enumerate(contents[:-1]):
+                out[f'name_range_{idx}_before_parameters'] = And(Eq(v.cell, result.cell), zint(v.start) + zint(v.length) <= zint(last.start),
+                                                                 zint(v.length) > 0)
+        return out
